@@ -9,7 +9,7 @@ RULE = ("one case = one generated history of 5-40 public mutating calls (every 3
         "container; after every call the full public observation is checked against the transition relation of the "
         "abstract model and the derived-query battery is evaluated. non-trivial = the history contains at least one "
         "removal and at least one re-insertion of an existing hyperedge; distinct = by final abstract state. The thorough tier "
-        "additionally runs EVERY history of length 3 over a fixed alphabet of ~18 concrete operations on three labels (weighted and "
+        "additionally runs EVERY history of length 4 over a fixed alphabet of 16-18 concrete operations on three labels (weighted and "
         "unweighted; exhaustive for that sub-space), with the full battery after every operation")
 DECIDING = ["M:transition", "M:battery", "M:rejected-leaves-state"]
 ASSUMPTIONS = ["abstract model in hgxmon/models.py (sets and dicts) is the specification",
